@@ -31,6 +31,85 @@ def OpRef {γ} (e : Bool) (res : Res (Value × γ)) (out : Outcome Root) : Prop 
 
 /-! ### specification side: `applyOp` per kind -/
 
+/-- a pointer outside RFC 6901 (no leading `/`): `add`, `replace`, `test` and the plain `remove`
+fail (the remove under AllowMissingPathOnRemove is left open; `move` / `copy`: see below) -/
+theorem spec_path_none {so : Spec.Opts} {sz acc : Nat} {doc : Value} {sop : Spec.Op}
+    (hp : Spec.parsePointer sop.path = none)
+    (hk : sop.kind = .add ∨ sop.kind = .replace ∨ sop.kind = .test ∨
+      (sop.kind = .remove ∧ so.allowMissing = false)) :
+    Spec.applyOp so sz acc doc sop = .fail .parentUnreachable := by
+  rcases hk with hk | hk | hk | ⟨hk, ha⟩ <;> simp [Spec.applyOp, *]
+
+/-- a destination pointer outside RFC 6901 in a `move`: the source half is evaluated first, its
+failure is the one reported -/
+theorem spec_move_path_none {so : Spec.Opts} {sz acc : Nat} {doc : Value} {sop : Spec.Op}
+    (hk : sop.kind = .move) (hp : Spec.parsePointer sop.path = none) :
+    Spec.applyOp so sz acc doc sop =
+      match Spec.parsePointer sop.frm with
+      | none => .fail .parentUnreachable
+      | some [] => .fail .moveFromRoot
+      | some (t :: ts) =>
+        (Spec.atParent so (Spec.removeIn so) doc (t :: ts)).bind fun _ => .fail .parentUnreachable := by
+  simp only [Spec.applyOp, hp, hk]
+  simp only [reduceCtorEq, false_and, if_false]
+  cases Spec.parsePointer sop.frm with
+  | none => rfl
+  | some ftoks => cases ftoks <;> rfl
+
+/-- a destination pointer outside RFC 6901 in a `copy`: the source half is evaluated first -/
+theorem spec_copy_path_none {so : Spec.Opts} {sz acc : Nat} {doc : Value} {sop : Spec.Op}
+    (hk : sop.kind = .copy) (hp : Spec.parsePointer sop.path = none) :
+    Spec.applyOp so sz acc doc sop =
+      match Spec.parsePointer sop.frm with
+      | none => .fail .parentUnreachable
+      | some [] => .fail .parentUnreachable
+      | some (t :: ts) =>
+        (Spec.atParent so (Spec.getIn so false) doc (t :: ts)).bind fun _ => .fail .parentUnreachable := by
+  simp only [Spec.applyOp, hp, hk]
+  simp only [reduceCtorEq, false_and, if_false]
+  cases Spec.parsePointer sop.frm with
+  | none => rfl
+  | some ftoks => cases ftoks <;> rfl
+
+/-- a pointer outside RFC 6901: the operation never succeeds -/
+theorem spec_path_none_not_ok {so : Spec.Opts} {sz acc : Nat} {doc : Value} {sop : Spec.Op}
+    (hp : Spec.parsePointer sop.path = none) (va : Value × Nat) :
+    Spec.applyOp so sz acc doc sop ≠ .ok va := by
+  cases hk : sop.kind with
+  | move =>
+    rw [spec_move_path_none hk hp]
+    split
+    · simp
+    · simp
+    · cases Spec.atParent so (Spec.removeIn so) doc _ <;> simp [Res.bind]
+  | copy =>
+    rw [spec_copy_path_none hk hp]
+    split
+    · simp
+    · simp
+    · cases Spec.atParent so (Spec.getIn so false) doc _ <;> simp [Res.bind]
+  | add => rw [spec_path_none hp (by simp [hk])]; simp
+  | replace => rw [spec_path_none hp (by simp [hk])]; simp
+  | test => rw [spec_path_none hp (by simp [hk])]; simp
+  | remove =>
+    cases ha : so.allowMissing with
+    | false => rw [spec_path_none hp (by simp [hk, ha])]; simp
+    | true => simp [Spec.applyOp, hp, hk, ha]
+
+/-- against a specification result that is not a success, an engine error is all it takes -/
+theorem OpRef_of_err {γ} {e : Bool} {res : Res (Value × γ)} {out : Outcome Root}
+    (hres : ∀ va, res ≠ .ok va) (h : ∃ er, out = .err er) : OpRef e res out := by
+  cases res with
+  | ok va => exact absurd rfl (hres va)
+  | fail c => exact h
+  | unspec => trivial
+
+/-- `findObject` on a pointer without a leading `/` returns nil at once -/
+theorem withPath_of_parsePointer_none {α} (o : Opts) (r : Root) {path : Bytes}
+    (act : Node → Node → Bytes → Outcome (Node × α)) (h : Spec.parsePointer path = none) :
+    withPath o r path act = .notFound r.con := by
+  simp [withPath, splitPath_of_parsePointer_none h]
+
 theorem spec_add_root {so : Spec.Opts} {sz acc : Nat} {doc : Value} {sop : Spec.Op} {v : Value}
     (hk : sop.kind = .add) (hp : Spec.parsePointer sop.path = some []) (hv : sop.value = some v) :
     Spec.applyOp so sz acc doc sop =
@@ -152,6 +231,38 @@ theorem opAdd_eq_nonroot (o : Opts) (r : Root) (op : Op) (hp : op.path ≠ []) (
   simp only [opAdd, hp, if_false, he, Bool.false_eq_true]
   rfl
 
+/-- a pointer outside RFC 6901: `add` finds nothing (whatever its value member is) -/
+theorem opAdd_path_none (o : Opts) (r : Root) (op : Op) (he : o.ensure = false)
+    (hp : Spec.parsePointer op.path = none) : opAdd o r op = .err .missing := by
+  rw [opAdd_eq_nonroot o r op (parsePointer_none_ne_nil hp) he, withPath_of_parsePointer_none _ _ _ hp]
+  rfl
+
+/-- `ensurePathExists` on a pointer without a leading `/` does nothing -/
+theorem ensurePath_of_parsePointer_none (o : Opts) (r : Root) {path : Bytes}
+    (h : Spec.parsePointer path = none) : ensurePath o r path = .ok r := by
+  cases path with
+  | nil => simp [Spec.parsePointer] at h
+  | cons c cs =>
+    simp only [Spec.parsePointer] at h
+    split at h
+    · next hc =>
+      obtain ⟨p, ps, hs⟩ := splitSlash_head_cons c cs hc
+      simp only [ensurePath, hs]
+      cases ps with
+      | nil => rfl
+      | cons q qs => simp
+    · cases h
+
+/-- a pointer outside RFC 6901: `add` finds nothing, with or without EnsurePathExistsOnAdd -/
+theorem opAdd_path_none_any (o : Opts) (r : Root) (op : Op)
+    (hp : Spec.parsePointer op.path = none) : opAdd o r op = .err .missing := by
+  cases he : o.ensure with
+  | false => exact opAdd_path_none o r op he hp
+  | true =>
+    simp only [opAdd, parsePointer_none_ne_nil hp, if_false, he, if_true,
+      ensurePath_of_parsePointer_none o r hp, withPath_of_parsePointer_none _ _ _ hp]
+    rfl
+
 theorem isContainer_valueOf (c : Cst) :
     c.valueOf.isContainer = (c.isArr || c.isObj) := by
   cases c with
@@ -168,7 +279,9 @@ theorem opAdd_refines {o : Opts} {e : Bool} {r : Root} {op : Op} {sop : Spec.Op}
     (hq : ∀ toks, Spec.parsePointer op.path = some toks → ∀ t ∈ toks, QK e t = true) :
     OpRef e (Spec.applyOp (specOpts o) sz acc (den r.con) sop) (opAdd o r op) := by
   cases hp : Spec.parsePointer op.path with
-  | none => simp only [Spec.applyOp, hpath, hp, OpRef]
+  | none =>
+    rw [spec_path_none (by rw [hpath]; exact hp) (by simp [hk]), opAdd_path_none o r op he hp]
+    exact ⟨.missing, rfl⟩
   | some toks =>
     cases toks with
     | nil =>
@@ -246,7 +359,10 @@ theorem opRemove_refines_noallow {o : Opts} {e : Bool} {r : Root} {op : Op} {sop
     (hk : sop.kind = .remove) (hpath : sop.path = op.path) :
     OpRef e (Spec.applyOp (specOpts o) sz acc (den r.con) sop) (opRemove o r op) := by
   cases hp : Spec.parsePointer op.path with
-  | none => simp only [Spec.applyOp, hpath, hp, OpRef]
+  | none =>
+    rw [spec_path_none (by rw [hpath]; exact hp) (by simp [hk, specOpts, ha]),
+      opRemove_eq, withPath_of_parsePointer_none _ _ _ hp]
+    exact ⟨.missing, by simp [liftWalk, ha]⟩
   | some toks =>
     cases toks with
     | nil => simp only [Spec.applyOp, hpath, hp, hk, OpRef]
@@ -297,6 +413,12 @@ theorem opReplace_eq_nonroot (o : Opts) (r : Root) (op : Op) (hp : op.path ≠ [
   simp only [opReplace, hp, if_false]
   rfl
 
+/-- a pointer outside RFC 6901: `replace` finds nothing (whatever its value member is) -/
+theorem opReplace_path_none (o : Opts) (r : Root) (op : Op)
+    (hp : Spec.parsePointer op.path = none) : opReplace o r op = .err .missing := by
+  rw [opReplace_eq_nonroot o r op (parsePointer_none_ne_nil hp), withPath_of_parsePointer_none _ _ _ hp]
+  rfl
+
 theorem opReplace_refines {o : Opts} {e : Bool} {r : Root} {op : Op} {sop : Spec.Op} {c : Cst}
     (sz acc : Nat) (hr : InvRoot e r)
     (hk : sop.kind = .replace) (hpath : sop.path = op.path)
@@ -305,7 +427,9 @@ theorem opReplace_refines {o : Opts} {e : Bool} {r : Root} {op : Op} {sop : Spec
     (hq : ∀ toks, Spec.parsePointer op.path = some toks → ∀ t ∈ toks, QK e t = true) :
     OpRef e (Spec.applyOp (specOpts o) sz acc (den r.con) sop) (opReplace o r op) := by
   cases hp : Spec.parsePointer op.path with
-  | none => simp only [Spec.applyOp, hpath, hp, OpRef]
+  | none =>
+    rw [spec_path_none (by rw [hpath]; exact hp) (by simp [hk]), opReplace_path_none o r op hp]
+    exact ⟨.missing, rfl⟩
   | some toks =>
     cases toks with
     | nil =>
@@ -361,7 +485,7 @@ theorem spec_move_root {so : Spec.Opts} {sz acc : Nat} {doc : Value} {sop : Spec
 theorem spec_move_none {so : Spec.Opts} {sz acc : Nat} {doc : Value} {sop : Spec.Op} {ptoks : List Bytes}
     (hk : sop.kind = .move) (hp : Spec.parsePointer sop.path = some ptoks)
     (hf : Spec.parsePointer sop.frm = none) :
-    Spec.applyOp so sz acc doc sop = .unspec := by
+    Spec.applyOp so sz acc doc sop = .fail .parentUnreachable := by
   simp only [Spec.applyOp, hp, hk, hf]
 
 theorem spec_move {so : Spec.Opts} {sz acc : Nat} {doc : Value} {sop : Spec.Op} {ptoks : List Bytes}
@@ -435,7 +559,53 @@ theorem opMove_refines {o : Opts} {e : Bool} {r : Root} {op : Op} {sop : Spec.Op
     (hq : ∀ toks, Spec.parsePointer op.path = some toks → ∀ t ∈ toks, QK e t = true) :
     OpRef e (Spec.applyOp (specOpts o) sz acc (den r.con) sop) (opMove o r op) := by
   cases hp : Spec.parsePointer op.path with
-  | none => simp only [Spec.applyOp, hpath, hp, OpRef]
+  | none =>
+    -- the destination is outside RFC 6901: the source half runs first, then nothing is found
+    have hsp : Spec.parsePointer sop.path = none := by rw [hpath]; exact hp
+    rw [spec_move_path_none hk hsp]
+    cases hfo : op.frm with
+    | none =>
+      rw [hfo] at hfrm
+      have hnil : Spec.parsePointer sop.frm = some [] := by rw [hfrm]; rfl
+      rw [hnil]
+      exact ⟨.missing, by simp [opMove, hfo]⟩
+    | some f =>
+      rw [hfo] at hfrm
+      simp only [Option.getD_some] at hfrm
+      rw [hfrm]
+      cases hpf : Spec.parsePointer f with
+      | none =>
+        rw [opMove_eq o r op f hfo (parsePointer_none_ne_nil hpf), withPath_of_parsePointer_none _ _ _ hpf]
+        exact ⟨.missing, rfl⟩
+      | some ftoks =>
+        cases ftoks with
+        | nil =>
+          exact ⟨.invalid, by simp [opMove, hfo, (parsePointer_nil_iff hpf).1 rfl]⟩
+        | cons t ts =>
+          have hne : f ≠ [] := fun h => by
+            have := (parsePointer_nil_iff hpf).2 h; cases this
+          rw [opMove_eq o r op f hfo hne]
+          have hw : WalkRef e r (fun val old => Inv e val ∧ den val = old)
+              (Spec.atParent (specOpts o) (Spec.removeIn (specOpts o)) (den r.con) (t :: ts))
+              (withPath o r f (actMoveSrc o)) :=
+            withPath_walkRef hr hpf (by simp) (fun key _ => actMoveSrc_ref)
+          simp only
+          cases hres : Spec.atParent (specOpts o) (Spec.removeIn (specOpts o)) (den r.con) (t :: ts) with
+          | unspec => simp only [Res.bind, OpRef]
+          | fail c =>
+            rw [hres] at hw
+            simp only [WalkRef] at hw
+            simp only [Res.bind, OpRef]
+            rcases hw with ⟨con', hw, _⟩ | ⟨er, hw⟩
+            · rw [hw]; exact ⟨_, rfl⟩
+            · rw [hw]; exact ⟨_, rfl⟩
+          | ok dv =>
+            rw [hres] at hw
+            simp only [WalkRef] at hw
+            obtain ⟨con', val, hw, _⟩ := hw
+            rw [hw]
+            simp only [Res.bind, moveK, withPath_of_parsePointer_none _ _ _ hp, liftWalk, OpRef]
+            exact ⟨_, rfl⟩
   | some ptoks =>
     have hp' : Spec.parsePointer sop.path = some ptoks := by rw [hpath]; exact hp
     cases hfo : op.frm with
@@ -447,7 +617,10 @@ theorem opMove_refines {o : Opts} {e : Bool} {r : Root} {op : Op} {sop : Spec.Op
       rw [hfo] at hfrm
       simp only [Option.getD_some] at hfrm
       cases hpf : Spec.parsePointer f with
-      | none => rw [spec_move_none hk hp' (by rw [hfrm]; exact hpf)]; trivial
+      | none =>
+        rw [spec_move_none hk hp' (by rw [hfrm]; exact hpf),
+          opMove_eq o r op f hfo (parsePointer_none_ne_nil hpf), withPath_of_parsePointer_none _ _ _ hpf]
+        exact ⟨.missing, rfl⟩
       | some ftoks =>
         cases ftoks with
         | nil =>
